@@ -54,7 +54,7 @@ type scenario struct {
 	MidFlush    bool    `json:"mid_flush,omitempty"`
 
 	NoisePct int    `json:"noise_pct,omitempty"` // replies preceded by unsolicited harmless frames
-	End      string `json:"end"`                 // remote-disc | app-close | link-drop | close-inflight | close-stalled
+	End      string `json:"end"`                 // remote-disc | app-close | link-drop | close-inflight | close-stalled | tnc-close-stalled
 	Version  bool   `json:"version,omitempty"`
 	UI       bool   `json:"ui,omitempty"`
 
@@ -69,6 +69,13 @@ type scenario struct {
 	OddAccept bool   `json:"odd_accept,omitempty"` // accept: 'C' frames without the expected text / for other stations first
 	EarlyData int    `json:"early_data,omitempty"` // accept: this many data frames directly behind the 'C' frame
 	TailLie   bool   `json:"tail_lie,omitempty"`   // finally a header announcing 1 MiB followed by the end of the link
+
+	// DropInStall (end = link-drop): the link ends while the reader is stalled behind the last burst.
+	DropInStall bool `json:"drop_in_stall,omitempty"`
+	// Dual: a second connection (to another station, same port) is open during the whole scenario
+	// and receives DualPct percent additional data frames interleaved with the first one's.
+	Dual    bool `json:"dual,omitempty"`
+	DualPct int  `json:"dual_pct,omitempty"`
 }
 
 func defaults() scenario {
@@ -80,6 +87,7 @@ const (
 	myCall     = "LA5NTA-1"
 	remoteCall = "N0CALL-7"
 	otherCall  = "SM0XYZ-2"
+	thirdCall  = "OH2ABC-5"
 )
 
 var digiCalls = []string{"WIDE1-1", "LD5SK"}
@@ -104,7 +112,10 @@ type env struct {
 	port    *agwpe.Port
 	tncPort *agwpe.TNCPort
 
-	conn net.Conn
+	conn  net.Conn
+	conn2 net.Conn // Dual: connection to otherCall
+	got2  []byte
+	rd2   chan struct{}
 
 	readerBytes atomic.Int64
 	stall       atomic.Pointer[chan struct{}]
@@ -127,6 +138,9 @@ type env struct {
 	fatal     chan struct{} // closed when a library call panicked: the scenario ends at once
 	linkLost  bool          // the library closed the TNC link on its own
 	regFailed bool
+
+	appClosedLink bool // closeAll has been called
+	closeReturned bool // Conn.Close of the first connection returned nil
 }
 
 func (e *env) vio(key, format string, a ...any) {
@@ -303,7 +317,8 @@ func (sc scenario) simConfig() simagw.Config {
 		cfg.Dial = simagw.DialBadText
 	}
 	port := uint8(sc.Port)
-	cfg.Noise = func(r *rand.Rand) []simagw.Frame { return []simagw.Frame{harmlessFrame(r, port)} }
+	dual := sc.Dual
+	cfg.Noise = func(r *rand.Rand) []simagw.Frame { return []simagw.Frame{harmlessFrame(r, port, dual)} }
 	if sc.Link == "tcp" {
 		pct := 0
 		fmt.Sscanf(sc.Seg, "cut%d", &pct)
@@ -341,8 +356,13 @@ func otherPort(r *rand.Rand, port uint8) uint8 {
 // that is at worst meaningless) and that must neither reach the connection's reader nor disturb
 // any exchange: data for other ports or other stations, monitor frames, unknown kinds, connect
 // notices that do not concern this station, stray replies addressed elsewhere.
-func harmlessFrame(r *rand.Rand, port uint8) simagw.Frame {
+func harmlessFrame(r *rand.Rand, port uint8, dual bool) simagw.Frame {
 	junk := func(n int) []byte { return append([]byte("!FOREIGN!"), vrt.Bytes(r, n)...) }
+	otherCall := otherCall
+	if dual {
+		// otherCall is a live connection of this application then: frames in its name are not noise
+		otherCall = thirdCall
+	}
 	switch r.Intn(11) {
 	case 0: // same stations, another port
 		return simagw.Frame{Kind: 'D', PID: 0xF0, Port: otherPort(r, port), From: remoteCall, To: myCall, Data: junk(r.Intn(200))}
@@ -759,11 +779,14 @@ func (e *env) driver(done chan struct{}, stop <-chan struct{}) {
 		var items []simagw.Item
 		for _, p := range payloads(rng, b.Frames, b.MinSz, b.MaxSz) {
 			if b.ForeignPct > 0 && rng.Intn(100) < b.ForeignPct {
-				f := harmlessFrame(rng, port)
+				f := harmlessFrame(rng, port, e.sc.Dual)
 				items = append(items, simagw.Item{Frame: &f, Note: "foreign"})
 				e.count("foreign_frames_interleaved", 1)
 			}
 			items = append(items, simagw.Item{Remote: remoteCall, Payload: p})
+			if e.conn2 != nil && rng.Intn(100) < e.sc.DualPct {
+				items = append(items, simagw.Item{Remote: otherCall, Payload: vrt.Bytes(rng, 1+rng.Intn(150))})
+			}
 		}
 		if bi == 0 && e.sc.Huge > 0 {
 			f := simagw.Frame{Kind: vrt.Pick(rng, []byte{'K', 'U', 'q'}), Port: port, From: remoteCall, To: myCall, Data: vrt.Bytes(rng, e.sc.Huge)}
@@ -788,6 +811,13 @@ func (e *env) driver(done chan struct{}, stop <-chan struct{}) {
 		e.count("tnc_bursts", 1)
 		if release != nil {
 			e.sim.Sync(time.Second)
+			if e.sc.End == "link-drop" && e.sc.DropInStall && bi == len(e.sc.Bursts)-1 {
+				e.mu.Lock()
+				e.dropLink = true
+				e.mu.Unlock()
+				e.sim.DropLink(10 * time.Second)
+				e.count("link_dropped_while_reader_stalled", 1)
+			}
 			select {
 			case <-time.After(time.Duration(b.StallMs) * time.Millisecond):
 			case <-stop:
@@ -810,6 +840,38 @@ func (e *env) run() {
 	}
 	if e.conn == nil {
 		return
+	}
+	if sc.Dual {
+		e.setPhase("dial-second")
+		var c2 net.Conn
+		var err error
+		if !e.call("DialContext", func() { c2, err = e.port.DialContext(context.Background(), otherCall) }) || e.nViol() > 0 {
+			return
+		}
+		if err != nil {
+			e.vio("api:dial:error", "DialContext(%q) for the second connection failed although the TNC reported the connection: %v", otherCall, err)
+			return
+		}
+		e.conn2 = c2
+		e.rd2 = make(chan struct{})
+		go func() {
+			defer close(e.rd2)
+			buf := make([]byte, 4096)
+			e.guard(func() {
+				for {
+					n, err := c2.Read(buf)
+					e.mu.Lock()
+					e.got2 = append(e.got2, buf[:n]...)
+					tooMuch := len(e.got2) > 16<<20
+					e.mu.Unlock()
+					e.readerBytes.Add(int64(n))
+					if err != nil || tooMuch {
+						return
+					}
+				}
+			})
+		}()
+		defer e.endSecond()
 	}
 	if sc.UI {
 		e.setPhase("sendui")
@@ -834,6 +896,9 @@ func (e *env) run() {
 		if !e.call("Close", func() { err = e.conn.Close() }) {
 			return
 		}
+		e.mu.Lock()
+		e.closeReturned = err == nil
+		e.mu.Unlock()
 		if err != nil && !sc.tolerant() && !e.isAborted() {
 			e.apiErr("api:close:error", err, "Close (%s) failed although the TNC answered everything: %v", when, err)
 		}
@@ -929,16 +994,34 @@ func (e *env) run() {
 			e.sim.SendBatch([]simagw.Item{{Raw: f.Encode(), Note: "header announcing 1 MiB, 5 bytes follow, then the link ends"}})
 			e.count("tail_lie_sent", 1)
 		}
-		e.mu.Lock()
-		e.dropLink = true
-		e.mu.Unlock()
-		e.sim.DropLink(10 * time.Second)
+		if !sc.DropInStall {
+			e.mu.Lock()
+			e.dropLink = true
+			e.mu.Unlock()
+			e.sim.DropLink(10 * time.Second)
+		}
 		if !e.await(rdDone) {
 			e.stuck("Read-until-EOF")
 			return
 		}
 		e.setPhase("close")
 		closeConn("after link drop")
+	case "tnc-close-stalled":
+		// Port and TNC are closed by the application while the reader is stalled behind a burst that
+		// fills the pipeline. The calls must return; the reader gets a prefix, then the end.
+		time.Sleep(5 * time.Millisecond)
+		e.setPhase("close-port-and-tnc")
+		if !e.call("Port.Close+TNC.Close", e.closeAll) {
+			return
+		}
+		stopDriver()
+		if !e.await(rdDone) {
+			e.stuck("Read-until-EOF")
+			return
+		}
+		e.await(drvDone)
+		e.setPhase("close")
+		closeConn("after the TNC was closed")
 	default:
 		panic("bad end " + sc.End)
 	}
@@ -950,12 +1033,53 @@ func (e *env) writeError() error {
 	return e.writeErr
 }
 
+// closeAll closes the port (unregister) and the TNC link the way an application does.
+func (e *env) closeAll() {
+	e.mu.Lock()
+	e.appClosedLink = true
+	e.mu.Unlock()
+	switch {
+	case e.tncPort != nil:
+		e.tncPort.Close()
+	default:
+		if e.port != nil {
+			e.port.Close()
+		}
+		if e.tnc != nil {
+			e.tnc.Close()
+		}
+	}
+}
+
+// endSecond ends the second connection (the remote station disconnects, unless the link is gone
+// already) and waits for its reader.
+func (e *env) endSecond() {
+	if e.conn2 == nil || e.isAborted() {
+		return
+	}
+	e.setPhase("end-second")
+	e.mu.Lock()
+	dropped := e.dropLink
+	e.mu.Unlock()
+	if !dropped && e.sc.End != "tnc-close-stalled" {
+		e.sim.Disconnect(otherCall)
+	}
+	if !e.await(e.rd2) {
+		e.stuck("Read-until-EOF(second connection)")
+		return
+	}
+	var err error
+	if e.call("Close", func() { err = e.conn2.Close() }) && err != nil {
+		e.apiErr("api:close:error", err, "Close of the second connection failed: %v", err)
+	}
+}
+
 // teardown closes port and TNC, stops the simulator and judges what was observed.
 func (e *env) teardown() {
 	e.setPhase("teardown")
 	aborted := e.isAborted()
 	e.mu.Lock()
-	dropped := e.dropLink
+	dropped := e.dropLink || e.appClosedLink
 	e.mu.Unlock()
 	if !aborted && !dropped && !e.regFailed && e.sc.ShortX < 0 && e.tnc != nil && e.sim.LinkEnded() {
 		// nobody asked for the link to end: the library gave up on a TNC that did nothing wrong
@@ -969,19 +1093,7 @@ func (e *env) teardown() {
 	closed := make(chan struct{})
 	go func() {
 		defer close(closed)
-		e.guard(func() {
-			switch {
-			case e.tncPort != nil:
-				e.tncPort.Close()
-			default:
-				if e.port != nil {
-					e.port.Close()
-				}
-				if e.tnc != nil {
-					e.tnc.Close()
-				}
-			}
-		})
+		e.guard(e.closeAll)
 	}()
 	select {
 	case <-closed:
@@ -1000,6 +1112,29 @@ func (e *env) teardown() {
 		e.ln.Close()
 	}
 	e.judge(rep, aborted)
+}
+
+// logExcerpt renders the first head and the last tail entries of the exchange log.
+func logExcerpt(events []simagw.Event, head, tail int) []string {
+	var log []string
+	for i, ev := range events {
+		if i >= head && i < len(events)-tail {
+			if i == head {
+				log = append(log, fmt.Sprintf("... %d more ...", len(events)-head-tail))
+			}
+			continue
+		}
+		dir := "app->tnc"
+		if ev.Dir == "tx" {
+			dir = "tnc->app"
+		}
+		l := fmt.Sprintf("%s %s port=%d from=%s to=%s len=%d", dir, ev.Kind, ev.Port, ev.From, ev.To, ev.Len)
+		if ev.Note != "" {
+			l += " (" + ev.Note + ")"
+		}
+		log = append(log, l)
+	}
+	return log
 }
 
 // classifyMismatch names the way got differs from sent: a foreign frame was delivered, whole
@@ -1126,7 +1261,7 @@ func (e *env) judge(rep simagw.Report, aborted bool) {
 		e.vio("rx-stream:"+kind, "application read %d bytes, the TNC sent only %d for this connection (%s): surplus % x...", len(got), len(sent), ctx, got[len(sent):min(len(got), len(sent)+16)])
 	case len(got) < len(sent):
 		// a proper prefix: only legitimate when the application itself ended the connection early
-		if sc.End == "close-inflight" || sc.End == "close-stalled" || sc.tolerant() || aborted {
+		if sc.End == "close-inflight" || sc.End == "close-stalled" || sc.End == "tnc-close-stalled" || sc.tolerant() || aborted {
 			e.count("rx_prefix_after_early_close", 1)
 		} else {
 			e.vio("rx-stream:truncated", "application read only the first %d of the %d bytes (%d frames) the TNC sent before the connection ended (read error %v; %s)",
@@ -1134,6 +1269,23 @@ func (e *env) judge(rep simagw.Report, aborted bool) {
 		}
 	default:
 		e.count("rx_stream_equal", 1)
+	}
+
+	// ---- second connection (Dual): its reader must see exactly its own frames
+	if c2 := rep.Conns[otherCall]; e.conn2 != nil && c2 != nil {
+		e.mu.Lock()
+		got2 := append([]byte(nil), e.got2...)
+		e.mu.Unlock()
+		sent2 := c2.Tx.Bytes()
+		e.count("bytes_tnc_to_app_second_conn", int64(len(sent2)))
+		switch {
+		case bytes.Equal(got2, sent2):
+			e.count("rx_stream_equal_second_conn", 1)
+		case bytes.HasPrefix(sent2, got2) && (aborted || sc.End == "tnc-close-stalled"):
+		default:
+			d := firstDiff(got2, sent2)
+			e.vio("rx-stream:second-connection", "the second connection (to %s) read %d bytes, the TNC sent it %d in %d frames; first difference at offset %d (%s)", otherCall, len(got2), len(sent2), c2.TxFrames, d, ctx)
+		}
 	}
 
 	// ---- application -> TNC stream
@@ -1161,7 +1313,10 @@ func (e *env) judge(rep simagw.Report, aborted bool) {
 		e.count("y_polls", int64(c.Polls))
 	}
 	appClosed := sc.End == "app-close" || sc.End == "close-inflight" || sc.End == "close-stalled"
-	if appClosed && !aborted && !sc.tolerant() {
+	e.mu.Lock()
+	closeReturned := e.closeReturned
+	e.mu.Unlock()
+	if appClosed && closeReturned && !aborted && !sc.tolerant() {
 		switch {
 		case !c.HostDisc:
 			e.vio("exchange:close:no-d", "Close returned but the TNC never received a 'd' frame for the connection")
@@ -1198,25 +1353,13 @@ func (e *env) judge(rep simagw.Report, aborted bool) {
 	if len(sent)+len(recv) > 0 {
 		o.Sig("%s|%s|%s|p%d|%s%d|rb%d|%s|b%v|w%v|n%d|mf%d|ttl%d|%d", sc.Class, sc.Link, sc.Seg, sc.Port, sc.Mode, sc.Digis, sc.RBuf, sc.End, sc.Bursts, sc.Writes, sc.NoisePct, sc.MaxFrame, sc.TTLMax, sc.Seed)
 	}
-	if o.Sample == nil {
-		var log []string
-		for i, ev := range rep.Events {
-			if i >= 12 && i < len(rep.Events)-5 {
-				if i == 12 {
-					log = append(log, fmt.Sprintf("... %d more ...", len(rep.Events)-17))
-				}
-				continue
-			}
-			dir := "app->tnc"
-			if ev.Dir == "tx" {
-				dir = "tnc->app"
-			}
-			l := fmt.Sprintf("%s %s port=%d from=%s to=%s len=%d", dir, ev.Kind, ev.Port, ev.From, ev.To, ev.Len)
-			if ev.Note != "" {
-				l += " (" + ev.Note + ")"
-			}
-			log = append(log, l)
+	for i := range o.Violations {
+		if o.Violations[i].Detail == nil {
+			o.Violations[i].Detail = map[string]any{"exchange_log_excerpt": logExcerpt(rep.Events, 15, 40)}
 		}
+	}
+	if o.Sample == nil {
+		log := logExcerpt(rep.Events, 12, 5)
 		o.Sample = map[string]any{"scenario": sc, "bytes_tnc_to_app": len(sent), "bytes_app_to_tnc": len(recv), "tnc_frames_validated": rep.RxFrames,
 			"y_polls": c.Polls, "exchange_log_excerpt": log}
 	}
